@@ -8,8 +8,8 @@ CONSTANTS
   MaxCalls = 0
   NewestFirst = TRUE
   RoutesFirst = TRUE
-  OtherForAll = FALSE
-  StarWithCreds = TRUE
+  OtherForAll = TRUE
+  StarWithCreds = FALSE
 INVARIANT OnlyAllowedOrigins
 INVARIANT NoOriginUntouched
 INVARIANT GrantIsEchoOrStar
@@ -19,3 +19,4 @@ INVARIANT PreflightOnlyOnSuccessWithAllow
 INVARIANT AllowRemovedOnPreflight
 INVARIANT DeniedPreflightWithdrawsGrants
 INVARIANT AllowOtherwiseKept
+INVARIANT Emit
